@@ -31,6 +31,7 @@ all numeric attributes, ICE role attributes, error code and phrase — with the 
 `QString::fromUtf8(const QByteArray &)` (see `stun_decode_encode_same` for when that is the identity). -/
 theorem stun_decode_encode (H : Bytes → Bytes) (hH : ∀ x, (H x).length = 20) (m : Msg) (h : WFMsg m)
     (k : Bytes) (fp : Bool) : decode H (encode H m k fp) k = some (view m) := by
+  rw [encode_eq_raw_wf H hH m h k fp]
   unfold decode
   rw [decodeX_encode H hH m h k fp]
   rfl
@@ -47,8 +48,9 @@ theorem stun_decode_encode_trace (H : Bytes → Bytes) (hH : ∀ x, (H x).length
     (k : Bytes) (fp : Bool) :
     decodeX H (encode H m k fp) k =
       some ⟨view m, if k = [] then none else some (body m).length,
-        if fp then some ((body m).length + (if k = [] then 0 else 24)) else none⟩ :=
-  decodeX_encode H hH m h k fp
+        if fp then some ((body m).length + (if k = [] then 0 else 24)) else none⟩ := by
+  rw [encode_eq_raw_wf H hH m h k fp]
+  exact decodeX_encode H hH m h k fp
 
 /-- Decoding without a key skips the HMAC comparison and gives the same message. -/
 theorem stun_decode_encode_nokey (H : Bytes → Bytes) (hH : ∀ x, (H x).length = 20) (m : Msg) (h : WFMsg m)
@@ -71,26 +73,69 @@ example : decode sha1 (encode sha1 exampleMsg [1, 2, 3] true) [1, 2, 3] = some e
 
 /-- **Defect (round trip of strings).**  A message built through the public setters with a USERNAME containing U+0000 is
 well-formed but does not come back: `QString::fromUtf8(const QByteArray &)` of Qt 5 cuts the value at the NUL.
-(Same for a leading U+FEFF, which is dropped.)  Replayed on the implementation as `C14:roundtrip-string-nul-bom`. -/
+Replayed on the implementation as `C14:roundtrip-string-nul`; fixes/C14-string-nul.diff
+(`fromUtf8(ba.constData(), ba.size())`) repairs it — then `qtStr` loses its `cutAtNul` and this theorem goes. -/
 theorem C14_defect_string_nul_not_round_tripped :
     ¬ (∀ (H : Bytes → Bytes), (∀ x, (H x).length = 20) → ∀ (m : Msg), WFMsg m → ∀ (k : Bytes) (fp : Bool),
         decode H (encode H m k fp) k = some m) := by
   intro hall
-  have hm : WFMsg { username := some [0x61, 0x00, 0x62] } := by constructor <;> decide +kernel
+  have hm : WFMsg { username := some [0x61, 0x00, 0x62] } := ⟨by constructor <;> decide +kernel, by decide +kernel⟩
   have h1 := hall sha1 sha1_length _ hm [] false
   rw [stun_decode_encode sha1 sha1_length _ hm [] false] at h1
   revert h1
   decide
 
-/-- **Defect (messages that do not fit the 16-bit length fields).**  `setData` accepts any byte array; with 65532 bytes or
-more the attribute section exceeds 65535 bytes, `encode` writes the attribute and header lengths modulo 65536 and the
-result is rejected by `decode` (for every hash; shown without key and fingerprint).  This is the `size` conjunct of
-`WFMsg`: the library can build such a message, it just does not come back.  Replayed on the implementation with 70000
-bytes as `C14:oversized-not-decodable`; fixes/C14-oversized-not-decodable.diff makes `encode` refuse (empty result and a
-warning) instead of emitting a corrupt packet. -/
-theorem C14_defect_oversized_not_decodable (H : Bytes → Bytes) (d : Bytes) (hd : 65532 ≤ d.length) :
-    decode H (encode H (dataOnlyMsg d) [] false) [] = none :=
-  oversized_data_rejected H d hd
+/-- **Every message `encode` accepts decodes back.**  Same as `stun_decode_encode` without the size bound of `WFMsg`:
+whenever `encode` does not refuse the message (it refuses exactly those whose attributes, MESSAGE-INTEGRITY and
+FINGERPRINT included, exceed the 16-bit length field — `encode_refuses_exactly_oversized`), the result decodes to
+`view m`.  Before /repo commit e55f2fd such messages were emitted with wrapped length fields and did not decode
+(`setData` with 70000 bytes, replayed by the harness under `C14:oversized-not-decodable`). -/
+theorem stun_decode_encode_accepted (H : Bytes → Bytes) (hH : ∀ x, (H x).length = 20) (m : Msg) (h : WFFields m)
+    (k : Bytes) (fp : Bool) (hacc : encode H m k fp ≠ []) : decode H (encode H m k fp) k = some (view m) := by
+  have hfit := fits_of_encode_ne_nil H hH m h.id k fp hacc
+  rw [encode_eq_raw H hH m h.id k fp hfit]
+  unfold decode
+  rw [decodeX_encode_fields H hH m h k fp hfit]
+  rfl
+
+/-- `encode` refuses (empty result) exactly the messages that do not fit the 16-bit length field -/
+theorem encode_refuses_exactly_oversized (H : Bytes → Bytes) (hH : ∀ x, (H x).length = 20) (m : Msg)
+    (hid : m.id.length = 12) (k : Bytes) (fp : Bool) :
+    encode H m k fp = [] ↔ 65536 ≤ (body m).length + (if k = [] then 0 else 24) + (if fp then 8 else 0) := by
+  constructor
+  · intro he
+    apply Classical.byContradiction
+    intro hn
+    have hfit : (body m).length + (if k = [] then 0 else 24) + (if fp then 8 else 0) < 65536 := by omega
+    rw [encode_eq_raw H hH m hid k fp hfit] at he
+    have := encode_length H hH m hid k fp
+    rw [he] at this
+    simp only [List.length_nil, Stun.headerSize] at this
+    split at this <;> split at this <;> omega
+  · exact encode_eq_nil H hH m hid k fp
+
+/-- the old witness: `setData` with 65532 bytes or more is refused -/
+example (H : Bytes → Bytes) (hH : ∀ x, (H x).length = 20) (d : Bytes) (hd : 65532 ≤ d.length) :
+    encode H (dataOnlyMsg d) [] false = [] :=
+  (encode_refuses_exactly_oversized H hH (dataOnlyMsg d) rfl [] false).mpr (by rw [dataOnly_body_len]; simp; omega)
+
+/-- `setReservationToken` always yields the 8 bytes `WFFields` asks for (zero padded, /repo commit e877112) -/
+theorem reservation_token_is_8_bytes (tok : Bytes) : (setReservationToken tok).length = 8 :=
+  setReservationToken_len tok
+
+/-- **Defect (round trip of strings, BOM half).**  A USERNAME starting with U+FEFF (bytes EF BB BF) is well-formed but
+comes back without it: every `QString::fromUtf8` overload of Qt 5 drops a leading byte order mark.  Replayed on the
+implementation as `C14:roundtrip-string-bom`; recorded, not repaired (no fix short of special-casing the three bytes;
+SASLprep maps U+FEFF to nothing anyway). -/
+theorem C14_defect_string_bom_not_round_tripped :
+    ¬ (∀ (H : Bytes → Bytes), (∀ x, (H x).length = 20) → ∀ (m : Msg), WFMsg m → ∀ (k : Bytes) (fp : Bool),
+        decode H (encode H m k fp) k = some m) := by
+  intro hall
+  have hm : WFMsg { username := some [0xEF, 0xBB, 0xBF, 0x61] } := ⟨by constructor <;> decide +kernel, by decide +kernel⟩
+  have h1 := hall sha1 sha1_length _ hm [] false
+  rw [stun_decode_encode sha1 sha1_length _ hm [] false] at h1
+  revert h1
+  decide
 
 /-! ## MESSAGE-INTEGRITY and FINGERPRINT of an encoded message -/
 
@@ -102,6 +147,7 @@ theorem encode_mi_is_hmac (H : Bytes → Bytes) (hH : ∀ x, (H x).length = 20) 
     ((encode H m k fp).drop (Stun.headerSize + (body m).length)).take 4 = putU16 Stun.messageIntegrity ++ putU16 20 ∧
     miValueAt (encode H m k fp) (body m).length =
       hmacCode H 64 k (miInputAt (encode H m k fp) (body m).length) := by
+  rw [encode_eq_raw_wf H hH m h k fp]
   refine ⟨encode_mi_header H hH m h.id k hk fp, ?_⟩
   have hd := decodeX_encode H hH m h k fp
   exact (decodeX_verified H _ k _ hd).1 _ (by simp [hk]) hk
@@ -123,18 +169,13 @@ theorem encode_fp_is_crc (H : Bytes → Bytes) (hH : ∀ x, (H x).length = 20) (
     fpValueAt (encode H m k true) off =
       (crc32Bitwise (fpInputAt (encode H m k true) off)).toNat ^^^ 0x5354554e := by
   intro off
+  rw [encode_eq_raw_wf H hH m h k true]
   refine ⟨?_, ?_, ?_⟩
   · rw [encode_length H hH m h.id k true]; simp only [off, if_true]; omega
   · simp only [off, ← Nat.add_assoc]; exact encode_fp_header H hH m h.id k
   · have hd := decodeX_encode H hH m h k true
     have := (decodeX_verified H _ k _ hd).2 off (by simp [off])
-    rw [this]
-    simp only [fingerprintOf, crcCode, crc32TableList, crc32Table, crc32Bitwise, Stun.fingerprintXor]
-    congr 3
-    generalize (0xFFFFFFFF : UInt32) = c
-    induction (fpInputAt (encode H m k true) off) generalizing c with
-    | nil => rfl
-    | cons b bs ih => simp only [List.foldl_cons, crcByte_eq, ih]
+    rw [this, fingerprintOf_spec]
 
 /-! ## What an accepting decode has verified -/
 
@@ -161,13 +202,7 @@ bytes before the attribute (length field adjusted) xor 0x5354554e. -/
 theorem decode_checks_fp (H : Bytes → Bytes) (b k : Bytes) (d : Decoded) (off : Nat)
     (hdec : decodeX H b k = some d) (hfp : d.fpAt = some off) :
     fpValueAt b off = (crc32Bitwise (fpInputAt b off)).toNat ^^^ 0x5354554e := by
-  rw [(decodeX_verified H b k d hdec).2 off hfp]
-  simp only [fingerprintOf, crcCode, crc32TableList, crc32Table, crc32Bitwise, Stun.fingerprintXor]
-  congr 3
-  generalize (0xFFFFFFFF : UInt32) = c
-  induction (fpInputAt b off) generalizing c with
-  | nil => rfl
-  | cons x xs ih => simp only [List.foldl_cons, crcByte_eq, ih]
+  rw [(decodeX_verified H b k d hdec).2 off hfp, fingerprintOf_spec]
 
 /-- **Another key needs a collision.**  A packet accepted under two non-empty keys (MESSAGE-INTEGRITY met at the same
 place) makes both keys produce the same MAC on the protected bytes. -/
@@ -183,7 +218,8 @@ with fingerprint is accepted, MESSAGE-INTEGRITY is met at offset `|body|`, FINGE
 example (H : Bytes → Bytes) (hH : ∀ x, (H x).length = 20) :
     ∃ d, decodeX H (encode H exampleMsg [7] true) [7] = some d ∧ ([7] : Bytes) ≠ [] ∧
       d.miAt = some (body exampleMsg).length ∧ d.fpAt = some ((body exampleMsg).length + 24) :=
-  ⟨_, decodeX_encode H hH exampleMsg wf_example [7] true, by decide, by simp, by simp⟩
+  ⟨_, by rw [encode_eq_raw_wf H hH exampleMsg wf_example]; exact decodeX_encode H hH exampleMsg wf_example [7] true,
+    by decide, by simp, by simp⟩
 
 
 /-! ## Single-bit corruption of an encoded message
@@ -206,7 +242,8 @@ theorem tamper_verified_is_forgery (H : Bytes → Bytes) (hH : ∀ x, (H x).leng
     (hdec : decodeX H (flipBit (encode H m k fp) i) k = some d) (hmi : d.miAt = some off) :
     miInputAt (flipBit (encode H m k fp) i) off ≠ miInputAt (encode H m k fp) (body m).length ∧
     hmacCode H 64 k (miInputAt (flipBit (encode H m k fp) i) off) = miValueAt (flipBit (encode H m k fp) i) off :=
-  tamper_verified_is_forgery_aux H hH m h k hk fp i hi d off hdec hmi
+  by rw [encode_eq_raw_wf H hH m h k fp] at hdec ⊢
+     exact tamper_verified_is_forgery_aux H hH m h k hk fp i hi d off hdec hmi
 
 /-- **Every single-bit flip of the protected bytes or of MESSAGE-INTEGRITY is rejected by the authenticated decode**
 (`decodeAuth`: `decode` succeeded and MESSAGE-INTEGRITY was met — what ICE enforces since /repo commit f41aa68 and what
@@ -218,8 +255,9 @@ theorem tamper_rejected_by_authenticated_decode (H : Bytes → Bytes) (hH : ∀ 
     (h : WFMsg m) (k : Bytes) (hk : k ≠ []) (fp : Bool) (i : Nat)
     (hi : i / 8 < Stun.headerSize + (body m).length + 24)
     (hNF : NotAForgery H k (miInputAt (encode H m k fp) (body m).length) (flipBit (encode H m k fp) i)) :
-    decodeAuth H (flipBit (encode H m k fp) i) k = none :=
-  tamper_rejected_aux H hH m h k hk fp i hi hNF
+    decodeAuth H (flipBit (encode H m k fp) i) k = none := by
+  rw [encode_eq_raw_wf H hH m h k fp] at hNF ⊢
+  exact tamper_rejected_aux H hH m h k hk fp i hi hNF
 
 /-- **Flips behind MESSAGE-INTEGRITY cannot alter the authenticated message.**  The remaining positions (the 8 bytes of
 FINGERPRINT, which MESSAGE-INTEGRITY does not cover) give a rejection or exactly the original message — without any
@@ -229,13 +267,15 @@ packet, the authenticated decode of the flipped packet is `none` or `some (view 
 theorem tamper_behind_mi_keeps_message (H : Bytes → Bytes) (hH : ∀ x, (H x).length = 20) (m : Msg) (h : WFMsg m)
     (k : Bytes) (hk : k ≠ []) (i : Nat) (hi : Stun.headerSize + (body m).length + 24 ≤ i / 8) :
     decodeAuth H (flipBit (encode H m k true) i) k = none ∨
-    decodeAuth H (flipBit (encode H m k true) i) k = some (view m) :=
-  tamper_after_mi_aux H hH m h k hk i hi
+    decodeAuth H (flipBit (encode H m k true) i) k = some (view m) := by
+  rw [encode_eq_raw_wf H hH m h k true]
+  exact tamper_after_mi_aux H hH m h k hk i hi
 
 /-- the untampered packet passes the authenticated decode (so the two theorems above are not vacuous) -/
 theorem authenticated_decode_encode (H : Bytes → Bytes) (hH : ∀ x, (H x).length = 20) (m : Msg) (h : WFMsg m)
-    (k : Bytes) (hk : k ≠ []) (fp : Bool) : decodeAuth H (encode H m k fp) k = some (view m) :=
-  decodeAuth_encode H hH m h k hk fp
+    (k : Bytes) (hk : k ≠ []) (fp : Bool) : decodeAuth H (encode H m k fp) k = some (view m) := by
+  rw [encode_eq_raw_wf H hH m h k fp]
+  exact decodeAuth_encode H hH m h k hk fp
 
 /-- **Another key is rejected by the authenticated decode** unless it validates some 20-byte window of the packet as MAC
 of the corresponding prefix (for an encoded message and a sensible key the only candidate is the real attribute:
@@ -264,8 +304,9 @@ theorem C14_defect_bitflip_accepted :
         ∀ (fp : Bool) (i : Nat), i / 8 < Stun.headerSize + (body m).length →
           decode H (flipBit (encode H m k fp) i) k = none) := by
   intro hall
-  have hwf : WFMsg bitflipMsg := by constructor <;> decide +kernel
+  have hwf : WFMsg bitflipMsg := ⟨by constructor <;> decide +kernel, by decide +kernel⟩
   have h1 := hall sha1 sha1_length bitflipMsg hwf (by decide) [1] (by decide) true 189 (by decide)
+  rw [encode_eq_raw_wf sha1 sha1_length bitflipMsg hwf] at h1
   have h2 := bitflip_accepted sha1 sha1_length
   rw [h1] at h2
   exact absurd h2 (by decide)
@@ -322,13 +363,8 @@ theorem crc_table_length : crcTable.length = 256 := by decide +kernel
 
 /-- **The table-driven loop of `generateCrc32` over that table computes the bitwise-defined CRC-32**, for every input
 (induction on the input; per byte: `(c >> 8) ^ table[(c ^ b) & 0xff] = eight bitwise shifts of c ^ b`). -/
-theorem crc_tabular_eq_spec (bs : Bytes) : crc32TableList crcTable bs = crc32Bitwise bs := by
-  unfold crc32TableList crc32Table crc32Bitwise
-  congr 1
-  generalize (0xFFFFFFFF : UInt32) = c
-  induction bs generalizing c with
-  | nil => rfl
-  | cons b bs ih => simp only [List.foldl_cons, crcByte_eq, ih]
+theorem crc_tabular_eq_spec (bs : Bytes) : crc32TableList crcTable bs = crc32Bitwise bs :=
+  crcTable_spec bs
 
 /-! ## Constants and order extracted from the source -/
 
